@@ -208,7 +208,87 @@ func guardsAt(b *ssa.BasicBlock) []guard {
 			out = append(out, guard{ifi.Cond, false, ifi})
 		}
 	}
-	return out
+	return expandBoolPhis(out, 3)
+}
+
+// expandBoolPhis: a guard on a boolean that was built by short-circuit code (`x := a && b; if x`, which
+// go/ssa renders as a phi of constants and the last operand) implies the conditions of the only edge
+// on which the phi can have the guarded truth value.
+func expandBoolPhis(gs []guard, depth int) []guard {
+	if depth == 0 {
+		return gs
+	}
+	var extra []guard
+	for _, g := range gs {
+		cond, truth := g.atom()
+		phi, ok := cond.(*ssa.Phi)
+		if !ok || !isBoolType(phi.Type()) {
+			continue
+		}
+		cand := -1
+		n := 0
+		for i, e := range phi.Edges {
+			if k, isK := e.(*ssa.Const); isK && k.Value != nil {
+				if constant.BoolVal(k.Value) != truth {
+					continue // this edge cannot produce the guarded value
+				}
+			}
+			n++
+			cand = i
+		}
+		if n != 1 {
+			continue
+		}
+		pred := phi.Block().Preds[cand]
+		var add []guard
+		// conditions of the edge itself (computed without recursion into guardsAt's expansion of this phi)
+		for d := pred; d != nil; d = d.Idom() {
+			if len(d.Preds) != 1 {
+				continue
+			}
+			p := d.Preds[0]
+			ifi, ok := p.Instrs[len(p.Instrs)-1].(*ssa.If)
+			if !ok {
+				continue
+			}
+			if p.Succs[0] == d && p.Succs[1] != d {
+				add = append(add, guard{ifi.Cond, true, ifi})
+			} else if p.Succs[1] == d && p.Succs[0] != d {
+				add = append(add, guard{ifi.Cond, false, ifi})
+			}
+		}
+		if ifi, ok := pred.Instrs[len(pred.Instrs)-1].(*ssa.If); ok {
+			if pred.Succs[0] == phi.Block() && pred.Succs[1] != phi.Block() {
+				add = append(add, guard{ifi.Cond, true, ifi})
+			} else if pred.Succs[1] == phi.Block() && pred.Succs[0] != phi.Block() {
+				add = append(add, guard{ifi.Cond, false, ifi})
+			}
+		}
+		if _, isK := phi.Edges[cand].(*ssa.Const); !isK {
+			add = append(add, guard{phi.Edges[cand], truth, g.If})
+		}
+		// keep only facts not already known
+		for _, a := range add {
+			dup := false
+			for _, h := range gs {
+				if h.Cond == a.Cond && h.Truth == a.Truth {
+					dup = true
+				}
+			}
+			for _, h := range extra {
+				if h.Cond == a.Cond && h.Truth == a.Truth {
+					dup = true
+				}
+			}
+			if !dup {
+				extra = append(extra, a)
+			}
+		}
+	}
+	if len(extra) == 0 {
+		return gs
+	}
+	return append(gs, expandBoolPhis(extra, depth-1)...)
 }
 
 // atoms expands a guard through boolean negation (UnOp NOT): returns (cond, truth) pairs.
